@@ -294,8 +294,27 @@ prop(
     race_batches={"quick": 8, "thorough": 16},
     timeout={"quick": 400, "thorough": 3000},
     race_factor=2,
-    rule="TODO",
-    assumptions=[],
+    rule="(i) every history of 5 (quick) / 6 (thorough) events over {Start(id), Do(id), Indicate, Resp(id), RespUnknownID, Garbage, "
+         "Tick just-before/at/just-after the earliest deadline/past all, FailNextWrite, Close} for <=3 ids (symmetry-reduced, no-op "
+         "events pruned) on a retransmitting client with fallback handler and on a WithNoRetransmit client, each event driven to "
+         "quiescence under virtual time and compared with the executable client model (return class, write count, per-transaction "
+         "handler invocations and their class, Do returned); (ii) every pairwise control-point interleaving: operation A in {Start, "
+         "Start/no-retransmit, Do, tick with retransmission, tick with final timeout, delivery, Close, Close/no-conn-close} parked at "
+         "each control point it passes (Clock, Agent.Start/Stop/Process/Collect/Close, Connection.Write/Close, Collector.Close, "
+         "agent callback, user handler), operation B in {Start same id, Start other id, Resp, Tick, Close, Do+Resp} run to completion or "
+         "seen blocked, next write ok/failing, then a follow-up phase (two fresh transactions answered) and Close; (iii) perturbed "
+         "concurrent runs (2..8 goroutines of Start/Do/Indicate/SetRTO, responder with duplicates/unknown ids/garbage/drops, ticker, 1-2 "
+         "closers, seeded yields at every control point); (iv) random histories of 50..300 events. Ledger oracles: no handler twice; "
+         "nil-returning Start/Do => exactly one invocation at final quiescence; error-returning => none; every Do returned. "
+         "evaluations = histories + scenarios + runs; distinct_nontrivial = exhaustive prefixes + distinct random histories + parked "
+         "pairwise scenarios + distinct interleaving signatures of the concurrent runs",
+    counter_floors={"quick": {"pairwise.parked": 500, "stress.overlapping_operation_pairs": 1000}, "thorough": {"pairwise.parked": 500, "stress.overlapping_operation_pairs": 100000}},
+    assumptions=[
+        "the client model (harness/props/clientseq.go) transcribes the statement: response / timeout after the last retransmission / write error of a failed retransmission / closed; Collect expires deadline < t",
+        "quiescence is recognised without a clock: synchronous Start/Tick/Close, and a zero-length barrier datagram that the reader can only take once the previous datagram's handlers returned",
+        "concurrent schedules are not reproducible: a violation's replay file carries the recorded ledger",
+        "'Do returns' is decided at quiescence; the 10-30 s watchdogs only trigger the stuck-goroutine analysis (same parked stun frames in two dumps)",
+    ],
 )
 
 prop(
@@ -305,8 +324,19 @@ prop(
     race_batches={"quick": 8, "thorough": 16},
     timeout={"quick": 400, "thorough": 3000},
     race_factor=2,
-    rule="TODO",
-    assumptions=[],
+    rule="schedule walks: one transaction of size in {20,21,24,1499,1500,1501,2047,2048,2049,4096,65535,65555} x RTO in {1ns,1ms,300ms,1h} x "
+         "{7 retransmissions, WithNoRetransmit} is walked along its whole schedule with ticks just before / at / just after every "
+         "deadline (t_k+(k+1)*r), with one interfering event (none, response, SetRTO, Close, caller reuses the message buffer) at every "
+         "position; after each step the write log (bytes + virtual time) must show exactly the scheduled transmissions, each byte for "
+         "byte the snapshot of msg.Raw taken when Start was called (the caller scribbles over the message right after Start returns), "
+         "and nothing after termination; plus random sizes/RTOs, all histories of 4-5 events over 2 ids with SetRTO and sizes "
+         "2049/3000/24 against the model's write count, the pairwise interleavings and perturbed concurrent runs with the write "
+         "oracle (<= n+1 writes, identical bytes). evaluations = walks + histories + scenarios; distinct_nontrivial = distinct walk "
+         "parameter tuples + history prefixes + scenarios",
+    assumptions=[
+        "retransmission limits other than 7 and 0 cannot be set through the public API",
+        "'repeated only once the clock has passed (k+1)*r' is checked with the strictness the agent implements (deadline < t, see C13): a tick exactly at the deadline must not retransmit",
+    ],
 )
 
 prop(
@@ -317,8 +347,20 @@ prop(
     timeout={"quick": 400, "thorough": 3000},
     race_factor=2,
     max_counters=["max_concurrent_transactions"],
-    rule="TODO",
-    assumptions=[],
+    rule="(1) 1..500 transactions in flight at once, ids random or in a one-bit-apart family, half of the cases with a share timed out "
+         "first (late responses); a shuffled plan of uniquely tagged datagrams (32..1024 bytes) with duplicates, unknown ids and "
+         "garbage (incl. STUN-looking with a bad length) is delivered one by one; every handler must have been invoked exactly once with "
+         "its own id and byte-for-byte the first datagram delivered for it, the fallback handler must have seen exactly the unmatched "
+         "decodable datagrams in order, garbage nothing; (2) sequential churn: 2000 transactions per case on one client (Start/Do, "
+         "1 in 50 timing out, 1 in 70 with a failing write) so that pooled transaction / wait-handler / buffer objects are recycled "
+         "thousands of times; (3) all histories of 4-5 events with and without fallback handler (fallback count vs model); (4) pairwise "
+         "interleavings with follow-up phase and perturbed concurrent runs with duplicate / one-bit-apart ids under the identity oracle "
+         "(event id == handler's id, Message.Raw == a datagram delivered for that id); the race build repeats (1),(4). "
+         "evaluations = datagrams + transactions + histories + scenarios; distinct_nontrivial = cases",
+    assumptions=[
+        "datagrams are at most 1024 bytes (the client's read buffer)",
+        "error events handed to the fallback handler (timeouts of agent registrations without a client entry) are counted as evidence, not judged",
+    ],
 )
 
 prop(
@@ -328,6 +370,27 @@ prop(
     race_batches={"quick": 8, "thorough": 16},
     timeout={"quick": 400, "thorough": 3000},
     race_factor=2,
-    rule="TODO",
-    assumptions=[],
+    rule="(1) the option product {default, WithNoConnClose} x {manual collector, library ticker collector} x {virtual clock, system clock} x "
+         "{fallback handler or not} x {default RTO, 1ms, WithNoRetransmit} x {no error, agent Close error, connection Close error, both} "
+         "x {tapping agent, default agent} x 6 script variants (Start + pending Do + optional response + Start, then 1-3 sequential "
+         "Close calls, then Start/Do/Indicate/SetRTO/late tick after Close); (2) every history of 4-5 events containing Close under 6 "
+         "option sets; (3) pairwise interleavings with Close as A (paused at every control point incl. Collector.Close, Agent.Close, "
+         "Connection.Close) and as B; (4) perturbed concurrent runs with 1-4 concurrent closers; rel + race builds. Oracles: first Close "
+         "nil or CloseErr carrying exactly the injected errors, later ones ErrClientClosed; after the successful Close returned: no "
+         "readUntilClosed / tickerCollector goroutine in a full goroutine dump, connection Close count 1 (0 with WithNoConnClose), "
+         "collector Close count 1, no handler invocation begins, calls issued afterwards return ErrClientClosed and write nothing; "
+         "race-detector reports and goroutines parked in stun frames. evaluations = scripts + histories + scenarios + runs",
+    assumptions=[
+        "preconditions of the statement are honoured by the simulation: the collector's Close succeeds and waits for a running tick; under WithNoConnClose the pending Read is released",
+        "the goroutine scan is process-wide: one client at a time per worker process",
+    ],
 )
+
+
+LEVELS = {'C01': ('exploration', "runtime monitoring of the real decoder on generated/mutated/hostile inputs: recover + child-process supervision, pointer-range monitor on Attributes[i].Value, MemStats delta, red-zone and poisoned placements, release/debug/race(checkptr) builds; says 'held on K inputs', catches dropped or weakened length guards, aliasing entry points and length-field-proportional allocation", 'differential + memory-view monitor over generated inputs'), 'C02': ('exploration', 'differential monitor against an independent RFC 5389 parser; the space of length structures up to a body bound is enumerated completely, the rest is seeded random/mutated; Get/Contains/ForEach checked against list semantics on every accepted input', 'differential testing vs reference parser, bounded-exhaustive'), 'C03': ('exploration', 'after-every-operation invariant monitor over random building sequences with a shadow (type,value) list: reference parse of Raw == shadow == struct == library decode, Equal, zero padding, canonical bytes after Encode', 'invariant monitor over operation sequences'), 'C04': ('exploration', 'differential monitor: library Check verdict vs crypto/hmac over the span chosen by the reference parser, on hand-encoded variants, library-signed messages, wrong keys and every single-bit flip; release and debug builds', 'differential oracle + exhaustive bit-flip sweep per message'), 'C05': ('exploration', 'differential monitor against a bitwise CRC-32; every bit position of each fingerprinted message and random bursts; arbitrary FINGERPRINT placements judged by the iff', 'differential oracle + exhaustive bit-flip sweep per message'), 'C06': ('exploration', 'two-way differential against independent RFC encoders/decoders; ports, text lengths and error codes swept completely, the rest random', 'differential testing vs reference codecs'), 'C07': ('exploration', 'metamorphic twin monitor (same value, different surroundings/position/capacity) + before/after snapshot + red-zone placement over the complete getter x length x position x capacity grid', 'metamorphic twins + snapshot monitor'), 'C08': ('exploration', 'fresh-twin differential over chains of uses with poisoned spare capacity and scribbled caller buffers', 'fresh-twin differential with poisoning'), 'C09': ('exploration', 'boundary sweep of every setter against a hard-coded limit table with before/after snapshots and call counters for Build', 'boundary sweep + snapshot monitor'), 'C10': ('exploration', 'online comparison with an executable client model on all short histories, targeted pairwise control-point interleavings through the public seams, and an exactly-once ledger over perturbed concurrent runs (also under the race detector)', 'model-based history checking + exactly-once ledger over event logs'), 'C11': ('exploration', 'write-log oracle with virtual timestamps along complete retransmission schedules, plus the model and ledger workloads of C10 with the write oracle', 'trace checking of the write log under virtual time'), 'C12': ('exploration', 'unique-payload ledger: every datagram is tagged, every handler copies what it sees; routing decided at delivery time is compared with what handlers and the fallback handler observed; pool churn; race detector', 'unique-value ledger over handler and fallback logs'), 'C13': ('exploration', 'the real Agent is run next to an executable transaction-table model on EVERY call sequence up to the depth bound (all abstract table states visited) and on long random sequences with re-entrant handlers', 'exhaustive bounded model conformance'), 'C14': ('exploration', 'recorded concurrent histories checked for linearizability with porcupine against the C13 model, Go race detector, stuck-goroutine watchdog', 'linearizability checking of recorded histories (porcupine) + race detector'), 'C15': ('exploration', 'ledger over simulated-world counters and logical stamps, process-wide goroutine dump scan after Close, race detector; option product and Close placed everywhere', 'ledger + goroutine-dump scan + race detector'), 'C16': ('exploration', 'the supervising process is the oracle: children with a 1 MiB stack limit and heap watchdog, crash journal naming the input, confirmation re-run; exhaustive short strings + random long ones', 'process-level supervision with crash journal'), 'C17': ('exploration', 'expected components known by construction over the complete grammar product; round trip; DialURI observed through an injected recording network (network, address, first bytes: ClientHello vs plaintext, server name)', 'components-by-construction differential + recording fake network'), 'C18': ('exploration', 'every digest of random acquire/write/sum/reset/put programs compared with crypto/hmac, single- and multi-goroutine, race detector', 'differential vs crypto/hmac under pool reuse'), 'C19': ('exploration', "complete domain (16384 + 65536 points) against a bit-by-bit table from RFC 5389 figure 3: for this property 'held on what was observed' is the whole statement", 'exhaustive enumeration of the complete domain'), 'C20': ('exploration', 'testing.AllocsPerRun per operation and generated message in a dedicated single-P process with GC off, two warm-up regimes, repeat-to-confirm', 'allocation monitor (AllocsPerRun) in a dedicated process')}
+
+for _pid, (_cat, _text, _tech) in LEVELS.items():
+    if _pid in PROPS:
+        PROPS[_pid].setdefault('level', _cat)
+        PROPS[_pid]['level_text'] = _text
+        PROPS[_pid]['technique'] = _tech
